@@ -380,6 +380,12 @@ for job in jobs:
       if isinstance(v, dict) and '__layer__' in v:
         m_, c_, k_ = v['__layer__']
         return getattr(mod(m_), c_)(**build(k_))
+      if isinstance(v, dict) and '__model__' in v:
+        inp_ = keras.layers.Input(shape=(v['__model__']['input_dim'],))
+        y_ = inp_
+        for spec_ in v['__model__']['layers']:
+          y_ = build(spec_)(y_)
+        return keras.models.Model(inp_, y_)
       if isinstance(v, dict):
         return {k: build(x) for k, x in v.items()}
       if isinstance(v, list):
@@ -658,6 +664,8 @@ def configs(tier, rng):
     for single in (True, False):
       nat.append(dict(module='parallel_combination_layer', cls='ParallelCombination',
                       kwargs=dict(calibration_layers=subs, single_output=single), input_shape=[None, 3]))
+  nat.append(dict(module='aggregation_layer', cls='Aggregation', kwargs=dict(model={'__model__': dict(input_dim=2, layers=[
+      L_('linear_layer', 'Linear', num_input_dims=2, monotonicities=['increasing', 'none'], use_bias=False)])})))
   jobs.append(('native_roundtrip', dict(jobs=nat)))
   return jobs
 
